@@ -95,6 +95,24 @@ pub fn run_threads(seed: u64, tier: &str, out: &mut Out) {
         std::mem::forget(pb);
         out.emit(&format!("NOMODEL THREADS n={nthreads} per={per} start={start} len={len:?} hidden={hidden} bystander={} plans={plans:?}", round % 2 == 1), &format!(" ORACLE {verdict}"));
     }
+    // the position oscillates around a short length while another thread reads the completed fraction: whatever the
+    // interleaving of the reader's loads with the writers' atomic steps, the fraction stays within [0, 1]
+    for round in 0..(if tier == "thorough" { 40 } else { 4 }) {
+        let len = *rng.pick(&[1u64, 5, 7, 100]);
+        let pb = ProgressBar::with_draw_target(Some(len), ProgressDrawTarget::hidden());
+        let stop = std::sync::Arc::new(std::sync::atomic::AtomicBool::new(false));
+        let writers: Vec<_> = (0..2 + round % 3).map(|w| { let b = pb.clone(); let st = stop.clone(); let step = 2 * len + w as u64; std::thread::spawn(move || {
+            while !st.load(std::sync::atomic::Ordering::Relaxed) { b.inc(step); b.dec(step); } }) }).collect();
+        let b = pb.clone();
+        let reader = std::thread::spawn(move || { let mut worst: Option<f32> = None;
+            for _ in 0..400_000u32 { let mut f = 0f32; b.update(|s| f = s.fraction()); if !(0.0..=1.0).contains(&f) { worst = Some(f); break; } } worst });
+        let worst = reader.join().unwrap_or(Some(f32::NAN));
+        stop.store(true, std::sync::atomic::Ordering::Relaxed);
+        for h in writers { let _ = h.join(); }
+        let verdict = match worst { None => "ok".to_string(), Some(f) => format!("FAIL fraction-out-of-range {f} read while other threads move the position across the length {len}") };
+        std::mem::forget(pb);
+        out.emit(&format!("NOMODEL OSCILLATE len={len} round={round}"), &format!(" ORACLE {verdict}"));
+    }
     indicatif::verif_hooks::set_auto_advance_ns(0); indicatif::verif_hooks::set_stall_every(0);
 }
 
